@@ -350,11 +350,14 @@ pub fn op_scopehist(case: &J) -> J {
   };
   let empty = vec![];
   let mut rs = vec![];
+  let alone = case.get("alone").and_then(|v| v.as_bool()).unwrap_or(false);
+  let mut sets_so_far: Vec<(J, J)> = vec![];
   for st in case.get("steps").and_then(|v| v.as_array()).unwrap_or(&empty) {
     if let Some(sets) = st.get("set").and_then(|v| v.as_array()) {
       for pair in sets {
         if let J::Array(p) = pair {
           if p.len() == 2 {
+            sets_so_far.push((p[0].clone(), p[1].clone()));
             match vj::to_value(&p[1]) {
               Ok(v) => scope.set_entry(&vj::name_from_json(&p[0]), v),
               Err(e) => return json!({ "harness_error": e }),
@@ -366,7 +369,44 @@ pub fn op_scopehist(case: &J) -> J {
       }
       rs.push(J::Null);
     } else if let Some(text) = st.get("text").and_then(|v| v.as_str()) {
-      rs.push(eval_one(&scope, s(st, "entry").unwrap_or("expr"), text, None, 1, false, None));
+      let parse_only = st.get("parse_only").and_then(|v| v.as_bool()).unwrap_or(false);
+      let run = move |sc: &Scope, entry: &str, text: &str| -> J {
+        if parse_only {
+          // parsed, not evaluated: nothing is pushed onto the scope between this parse and the next one
+          let r = std::panic::catch_unwind(std::panic::AssertUnwindSafe(|| match parse_entry(sc, entry, text, None) {
+            Ok(n) => json!({"v": format!("{:?}", n)}),
+            Err(e) => json!({ "perr": e }),
+          }));
+          match r {
+            Ok(j) => j,
+            Err(_) => json!({"panic": crate::LAST_PANIC.lock().ok().and_then(|mut g| g.take()).unwrap_or(json!({"msg": "<unknown>"}))}),
+          }
+        } else {
+          eval_one(sc, entry, text, None, 1, false, None)
+        }
+      };
+      let mut rec = run(&scope, s(st, "entry").unwrap_or("expr"), text);
+      if alone {
+        // the same text over a FRESH scope object holding the bindings of this moment (the initial scope + every `set` so far):
+        // whatever the long-lived scope object or the thread remembers from earlier parses is not there
+        let fresh = match vj::to_scope(case.get("scope")) {
+          Ok(s) => s,
+          Err(e) => return json!({ "harness_error": e }),
+        };
+        for (n, v) in &sets_so_far {
+          if let Ok(v) = vj::to_value(v) {
+            fresh.set_entry(&vj::name_from_json(n), v);
+          }
+        }
+        let text_owned = text.to_string();
+        let entry = s(st, "entry").unwrap_or("expr").to_string();
+        let other = std::thread::spawn(move || run(&fresh, &entry, &text_owned)).join().unwrap_or(json!({"panic": {"msg": "alone thread died"}}));
+        let key = |r: &J| json!([r.get("v"), r.get("perr"), r.get("berr"), r.get("panic").map(|p| p.get("msg").cloned())]);
+        if key(&rec) != key(&other) {
+          rec["alone_differs"] = other;
+        }
+      }
+      rs.push(rec);
     } else {
       return json!({"harness_error": "bad step"});
     }
